@@ -234,6 +234,25 @@ Definition run_dec (a : sx) : sx :=
   | _ => sx_err "c03.dec"
   end.
 
+(** c03.cur  (name descriptor value k) -> 'err | (cell):  tlb.Marshal of the
+    value after the read cursors of its bit strings and cells were advanced by k:
+    the encoding is a function of the value, not of read cursors *)
+Definition run_cur (a : sx) : sx :=
+  match a with
+  | SL [_; d; v; _] =>
+      match ty_of d, val_of v with
+      | Some t, Some x =>
+          match enc [] fuel t x empty_bld with
+          | Ok b => SL [cell_sx (finish b)]
+          | Err e => if N.eqb e EFuel then sx_err "fuel" else SA "err"
+          | Panic _ => SA "panic"
+          end
+      | None, _ => sx_err "descriptor"
+      | _, None => sx_err "value"
+      end
+  | _ => sx_err "c03.cur"
+  end.
+
 (** c03.stack  (descriptor-of-VmStackValue (value ...)) ->
       'err | (cell (value' ...)):  tlb.Marshal of a tlb.VmStack and
       tlb.Unmarshal of the produced cell (the list comes back reversed) *)
@@ -269,4 +288,5 @@ Definition run03 (name : string) (a : sx) : sx :=
   if String.eqb name "c03.rt" then run_rt a
   else if String.eqb name "c03.dec" then run_dec a
   else if String.eqb name "c03.stack" then run_stack a
+  else if String.eqb name "c03.cur" then run_cur a
   else sx_err "unknown case kind".
